@@ -14,11 +14,12 @@ from fractions import Fraction
 from vlib.coqlit import cnat, cz, cbool, clist, copt, cpair, cstr, cq, cjv
 
 ID = "SRC"
-COQ_PROPS = ["Props/SRC.v", "Props/SRCfilter.v", "Props/SRClookup.v", "Props/SRCvalid.v"]
+COQ_PROPS = ["Props/SRC.v", "Props/SRCfilter.v", "Props/SRClookup.v", "Props/SRCvalid.v", "Props/SRCalg.v", "Props/SRCstate.v"]
 THEOREMS = ["SRC_is_constant", "SRC_is_repeating", "SRC_class_names", "SRC_valid_classes", "SRC_class_valid", "SRC_multiplicity",
             "SRC_multiplicity_foreign", "SRC_const_period", "SRC_n_slices", "SRC_key_regex_filter", "SRC_make_key_regex_filter",
-            "SRC_meta_valid", "SRC_get_meta", "SRC_getitem", "SRC_valid_classes_dyn", "SRC_multiplicity_dyn", "SRC_check_valid"]
-TABLES = ["t_src_ext", "t_src_filter", "t_src_lookup", "t_src_valid", "t_classes", "t_ext_tol", "t_content"]
+            "SRC_meta_valid", "SRC_get_meta", "SRC_getitem", "SRC_valid_classes_dyn", "SRC_multiplicity_dyn", "SRC_check_valid",
+            "SRC_global_slice_subset", "SRC_changed_class", "SRC_change_class", "SRC_simplify", "SRC_to_content_holds"]
+TABLES = ["t_src_ext", "t_src_filter", "t_src_lookup", "t_src_valid", "t_src_state", "t_classes", "t_ext_tol", "t_content"]
 ALLOWED_AXIOMS = []
 TRUSTED_BASE = ["tools/tables/py2coq.py (+ t_src_ext.py, t_src_filter.py): typed statement translator Python -> Gallina, "
                 "fail-closed outside the vocabulary documented in its docstring",
@@ -40,7 +41,7 @@ ASSUMPTIONS = ["Python ints that are sizes, periods or list positions are non-ne
 PYCLS = [('global', 'const'), ('global', 'slices'), ('time', 'samples'), ('time', 'slices'), ('vector', 'samples'), ('vector', 'slices')]
 FOREIGN = [('global', 'samples'), ('time', 'const'), ('x', 'y'), ('', ''), ('slices', 'global')]
 ERR = {'ValueError': 'EValue', 'IndexError': 'EIndex', 'KeyError': 'EKey', 'TypeError': 'EType',
-       'ZeroDivisionError': 'ECrash', 'AssertionError': 'ECrash'}
+       'ZeroDivisionError': 'ECrash', 'AssertionError': 'ECrash', 'AttributeError': 'EAttr'}
 
 
 def _cname(c):
@@ -132,7 +133,7 @@ def _ref(case):
 
 class Calls:
     NAME = "calls"
-    CORR_REQUIRE = "From DV Require Import Ext.SrcEqCorr."
+    CORR_REQUIRE = "From DV Require Import Common.Jv Ext.SrcEqCorr."
     CORR_CASE_TYPE = "SrcEqCorr.case"
     CORR_CHECK = "SrcEqCorr.check"
     CORR_SHOW = "SrcEqCorr.show"
@@ -149,7 +150,7 @@ class Calls:
         words = ['Patient', 'Name', 'Date', 'Time', 'ID', 'a', 'Pa', 'x']
         for _ in range(n):
             f = rng.choice(['is_constant', 'is_constant', 'is_repeating', 'is_repeating', 'n_slices', 'valid', 'mult', 'mult', 'period',
-                            'period', 'filter'])
+                            'period', 'filter', 'changed', 'changed', 'changed', 'gss', 'gss'])
             c = {'kind': f, 'f': f}
             if f in ('is_constant', 'is_repeating'):
                 p = rng.choice([None, 0, 1, 2, 2, 3, 3, 4, 5, 7]) if f == 'is_constant' else rng.choice([0, 1, 2, 2, 3, 3, 4, 5, 7])
@@ -179,6 +180,32 @@ class Calls:
                 c.update(shape=sh)
                 if f == 'n_slices':
                     c.update(sd=rng.choice([None, 0, 1, 2, 3, 5]))
+                if f in ('changed', 'gss'):
+                    nd = rng.choice([3, 4, 4, 5, 5, 5])
+                    sh = [rng.choice([1, 1, 2, 3]) for _ in range(nd)]
+                    sd = rng.choice([None, 0, 1, 2, 2])
+                    c.update(shape=sh, sd=sd, ns=None if sd is None else sh[sd])
+                if f == 'changed':
+                    cur = rng.choice(PYCLS + PYCLS + [None])
+                    m = _ref_mult(sh, c['ns'], cur).get('nat') if cur else None
+                    if cur is None:
+                        vals = None
+                    elif tuple(cur) == ('global', 'const'):
+                        vals = rng.choice([5, None, [1, 2], 'x'])
+                    elif m is None:
+                        cur, vals = None, None                      # the class is not valid for the shape: the key is invisible
+                    else:
+                        n = m if rng.random() < 0.85 else rng.randrange(0, 5)
+                        vals = [rng.choice([i, i, None, [i]]) for i in range(n)]
+                    c.update(cur=None if cur is None else list(cur), values=vals, new=list(rng.choice(PYCLS)),
+                             new_sd=rng.choice([None, None, 0, 1, 2, 4]))
+                if f == 'gss':
+                    tot = _prod(sh[3:]) * (c['ns'] or 1)
+                    n = tot if rng.random() < 0.8 else rng.randrange(0, 10)
+                    d = [['k', list(range(n))]] if rng.random() < 0.9 else [['other', [1]]]
+                    if rng.random() < 0.05:
+                        d = [['k', 7]]
+                    c.update(d=d, base=rng.choice(['time', 'vector', 'vector', 'global']), idx=rng.randrange(0, 4))
                 if f in ('mult', 'period'):
                     c.update(ns=None if sd is None else sh[sd])
                 if f == 'mult':
@@ -224,7 +251,20 @@ class Calls:
             if f == 'filter':
                 flt = dcmstack.make_key_regex_filter(case['excl'], case['incl'])
                 return {'bool': bool(flt(case['key'], None))}
-        except (ValueError, IndexError, KeyError, TypeError, ZeroDivisionError, AssertionError) as e:
+            if f in ('changed', 'gss'):
+                class Ext3(Ext):
+                    n_slices = property(lambda self: self._kw['ns'])
+
+                    def get_values_and_class(self, key):
+                        return (case['values'], None if case['cur'] is None else tuple(case['cur']))
+
+                    def get_class_dict(self, cl):
+                        return dict((k, v) for k, v in case['d'])
+                e = Ext3(case['shape'], ns=case['ns'])
+                if f == 'changed':
+                    return {'val': e._get_changed_class('k', tuple(case['new']), case['new_sd'])}
+                return {'val': e._global_slice_subset('k', case['base'], case['idx'])}
+        except (ValueError, IndexError, KeyError, TypeError, ZeroDivisionError, AssertionError, AttributeError) as e:
             return {'err': ERR[type(e).__name__]}
         raise ValueError(f)
 
@@ -240,6 +280,8 @@ class Calls:
             return '(SrcEqCorr.OOptNat %s)' % copt(o['opt'], cnat)
         if 'names' in o:
             return '(SrcEqCorr.ONames %s)' % clist(_cname(c) for c in o['names'])
+        if 'val' in o:
+            return '(SrcEqCorr.OVal %s)' % cjv(o['val'])
         raise ValueError('no Coq rendering of %r' % (o,))
 
     @staticmethod
@@ -257,6 +299,13 @@ class Calls:
             call = 'CMult %s %s %s' % (clist(cnat(x) for x in case['shape']), copt(case['ns'], cnat), _cname(case['c']))
         elif f == 'period':
             call = 'CPeriod %s %s %s %s' % (clist(cnat(x) for x in case['shape']), copt(case['ns'], cnat), _cname(case['s']), _cname(case['d']))
+        elif f == 'changed':
+            call = 'CChanged %s %s %s %s %s %s' % (clist(cnat(x) for x in case['shape']), copt(case['ns'], cnat), cjv(case['values']),
+                                                   copt(case['cur'], _cname), _cname(case['new']), copt(case['new_sd'], cnat))
+        elif f == 'gss':
+            call = 'CGss %s %s %s %s %s %s' % (clist(cnat(x) for x in case['shape']), copt(case['ns'], cnat),
+                                               clist(cpair(cstr(k), cjv(v)) for k, v in case['d']), cstr('k'), cstr(case['base']),
+                                               cnat(case['idx']))
         else:
             call = 'CFilter %s %s %s' % (clist(cstr(x) for x in case['excl']),
                                          copt(case['incl'], lambda l: clist(cstr(x) for x in l)), cstr(case['key']))
@@ -632,4 +681,151 @@ class Valid:
         return obs.get('r') != 'ok' or c10.content_has_varying(case['content'])
 
 
-PARTS = [Calls, Lookups, Valid]
+
+
+
+# ================================================================== part "state"
+
+def _plain(x):
+    """the content of an extension as plain JSON data in dictionary order"""
+    if isinstance(x, dict):
+        return dict((k, _plain(v)) for k, v in x.items())
+    if isinstance(x, (list, tuple)):
+        return [_plain(v) for v in x]
+    return x
+
+
+class State:
+    NAME = "state"
+    CORR_REQUIRE = "From DV Require Import Common.Jv Ext.SrcEqStateCorr."
+    CORR_CASE_TYPE = "SrcEqStateCorr.case"
+    CORR_CHECK = "SrcEqStateCorr.check"
+    CORR_SHOW = "SrcEqStateCorr.show"
+    SHARD = 150
+    RULE = ("real DcmMetaExtension objects (make_empty on 3-5 D shapes with extents 1..3, every slice dim or none) holding 1-3 keys in random "
+            "classes (valid for the shape or stale) with value lists that are constant / constant per period / repeating / arbitrary, of the "
+            "right or a wrong length; `_simplify(key)` and `_change_class(key, new_class)` for present and absent keys: the returned value and the "
+            "WHOLE content dictionary afterwards (key order included) vs the state-passing translation; non-trivial = the content changed")
+
+    @staticmethod
+    def gen_cases(rng, tier):
+        n = 1000 if tier == "quick" else 16000
+        out = []
+        for _ in range(n):
+            nd = rng.choice([3, 4, 4, 5, 5, 5])
+            sh = [rng.choice([1, 2, 2, 3]) for _ in range(nd)]
+            sd = rng.choice([None, 0, 1, 2, 2, 2])
+            ns = None if sd is None else sh[sd]
+            keys = []
+            for key in rng.sample(['a', 'b', 'c'], rng.choice([1, 2, 3])):
+                cl = rng.choice([c_ for c_ in PYCLS if _class_ok(sh, c_)] * 4 + PYCLS)
+                m = _ref_mult(sh, ns, cl).get('nat')
+                if tuple(cl) == ('global', 'const'):
+                    vals = rng.choice([5, None, 'x', [1, 2]])
+                else:
+                    ln = m if (m is not None and rng.random() < 0.9) else rng.randrange(0, 7)
+                    style = rng.randrange(5)
+                    if style == 0:
+                        vals = [7] * ln
+                    elif style == 1:
+                        p = rng.choice([1, 2, 3])
+                        vals = [i // p for i in range(ln)]
+                    elif style == 2:
+                        p = rng.choice([1, 2, 3])
+                        vals = [i % p for i in range(ln)]
+                    elif style == 3:
+                        vals = [None] * ln
+                    else:
+                        vals = [rng.randrange(3) for _ in range(ln)]
+                keys.append([key, list(cl), vals])
+            f = rng.choice(['simplify', 'simplify', 'change', 'subset', 'subset', 'subset'])
+            c = {'kind': f, 'f': f, 'shape': sh, 'sd': sd, 'keys': keys, 'key': rng.choice([k_[0] for k_ in keys] * 5 + ['zz'])}
+            if f == 'change':
+                c['new'] = list(rng.choice(PYCLS))
+            if f == 'subset':
+                dim = rng.choice(list(range(nd)) * 3 + [nd, 5])
+                c['dim'] = dim
+                c['idx'] = rng.randrange(sh[dim]) if dim < nd and rng.random() < 0.9 else rng.randrange(0, 4)
+            out.append(c)
+        return out
+
+    @staticmethod
+    def _build(case):
+        import numpy as np
+        from dcmstack.dcmmeta import DcmMetaExtension
+        ext = DcmMetaExtension.make_empty(tuple(case['shape']), np.eye(4), None, case['sd'])
+        for key, cl, vals in case['keys']:
+            base = ext._content.get(cl[0])
+            if isinstance(base, dict) and cl[1] in base:
+                base[cl[1]][key] = vals
+        return ext
+
+    @staticmethod
+    def run_impl(case):
+        ext = State._build(case)
+        before = _plain(ext._content)
+        ns = ext.n_slices
+        if case['f'] == 'subset':
+            import numpy as np
+            from dcmstack.dcmmeta import DcmMetaExtension
+            out = {'before': before, 'ns': None if ns is None else int(ns), 'empty': None}
+            try:       # the content make_empty gives for the shape of the result (external to the translation)
+                rs = list(case['shape'])
+                rs[case['dim']] = 1
+                while rs[-1] == 1 and len(rs) > 3:
+                    rs = rs[:-1]
+                out['empty'] = _plain(DcmMetaExtension.make_empty(tuple(rs), np.eye(4), None, case['sd'])._content)
+            except Exception:
+                pass
+            try:
+                r = ext.get_subset(case['dim'], case['idx'])
+                out['after'] = _plain(r._content)
+                out['content'] = True
+            except (ValueError, IndexError, KeyError, TypeError, ZeroDivisionError, AssertionError, AttributeError, UnboundLocalError) as e:
+                out['err'] = 'ECrash' if isinstance(e, UnboundLocalError) else ERR[type(e).__name__]
+            return out
+        try:
+            if case['f'] == 'simplify':
+                r = ext._simplify(case['key'])
+                res = {'bool': bool(r)}
+            else:
+                ext._change_class(case['key'], tuple(case['new']))
+                res = {'unit': True}
+        except (ValueError, IndexError, KeyError, TypeError, ZeroDivisionError, AssertionError, AttributeError) as e:
+            return {'before': before, 'ns': None if ns is None else int(ns), 'err': ERR[type(e).__name__]}
+        res.update(before=before, ns=None if ns is None else int(ns), after=_plain(ext._content))
+        return res
+
+    @staticmethod
+    def coq_case(case, obs):
+        if case['f'] == 'simplify':
+            call = '(SrcEqStateCorr.CSimplify %s)' % cstr(case['key'])
+        elif case['f'] == 'subset':
+            call = '(SrcEqStateCorr.CSubset %s %s %s %s)' % (copt(case['sd'], cnat), cnat(case['dim']), cnat(case['idx']), copt(obs['empty'], cjv))
+        else:
+            call = '(SrcEqStateCorr.CChange %s %s)' % (cstr(case['key']), _cname(case['new']))
+        if 'err' in obs:
+            o = '(SrcEqStateCorr.OErr %s)' % obs['err']
+        elif 'content' in obs:
+            o = '(SrcEqStateCorr.OContent %s)' % cjv(obs['after'])
+        elif 'bool' in obs:
+            o = '(SrcEqStateCorr.OBoolSt %s %s)' % (cbool(obs['bool']), cjv(obs['after']))
+        else:
+            o = '(SrcEqStateCorr.OUnitSt %s)' % cjv(obs['after'])
+        return 'SrcEqStateCorr.mk_case %s %s %s %s %s' % (clist(cnat(x) for x in case['shape']), copt(obs['ns'], cnat),
+                                                          cjv(obs['before']), call, o)
+
+    @staticmethod
+    def oracle(case, obs):
+        return None
+
+    @staticmethod
+    def signature(case, obs, msg):
+        return 'src-state'
+
+    @staticmethod
+    def nontrivial(case, obs):
+        return 'after' in obs and obs['after'] != obs['before']
+
+
+PARTS = [Calls, Lookups, Valid, State]
